@@ -41,8 +41,21 @@ def _node(depth):
     if depth == 0:
         return _leaf
     child = st.one_of(_leaf, st.deferred(lambda: _node(depth - 1)))
-    return st.dictionaries(_keys, child, min_size=1, max_size=5).map(
+    base = st.dictionaries(_keys, child, min_size=1, max_size=5).map(
         lambda d: ["d", [[k, v] for k, v in d.items()]])
+
+    @st.composite
+    def with_twin(draw):
+        # `optional("user")` and "user" are two different keys of one mapping: an optional leaf may
+        # share its name with a sibling branch (or required leaf)
+        node = draw(base)
+        if draw(st.integers(0, 3)) == 0:
+            plain = [k for k, c in node[1] if not (c[0] == "l" and c[2])]
+            if plain:
+                k = draw(st.sampled_from(plain))
+                node = ["d", node[1] + [[k, ["l", draw(_payload), True]]]]
+        return node
+    return with_twin()
 
 
 def strategy(tier):
@@ -89,6 +102,13 @@ def _nested(node, optional):
         else:
             out[k] = _nested(c, optional)
     return out
+
+
+def _has_twin(node):
+    if node[0] == "l":
+        return False
+    names = [k for k, _ in node[1]]
+    return len(names) != len(set(names)) or any(_has_twin(c) for _, c in node[1])
 
 
 def _depth(node):
@@ -190,6 +210,8 @@ def check(case, ctx):
         ctx.label("relaxed")
     if any("" in p for p, _, _ in leaves):
         ctx.label("empty-key")
+    if _has_twin(tree):
+        ctx.label("optional-leaf-named-like-sibling")
     if depth >= 2 and split and heads:
         ctx.mark_nontrivial(case, sample_class=(depth, len(sep)))
 
